@@ -282,4 +282,34 @@ PROPS["C08"] = dict(
     parts=[dict(engine="e1", harness="c08_levels")],
 )
 
+PROPS["C07"] = dict(
+    level="model_checking",
+    rule="cases: for_each with wl<Deterministic<>> in five variants (plain, "
+         "det_id, fixed_neighborhood, local_state, det_parallel_break) over "
+         "cautious non-commutative operator programs on 3 lockables with "
+         "dynamic pushes, 2-3 threads, fake [2] [1,1] [3] [2,1] machines. "
+         "Each execution first runs the same loop on ONE thread inside the "
+         "child (reference), then under exploration with T threads. "
+         "Executions = all schedules with <= bound deviations. Oracle: final "
+         "object values, per-object commit sequences and the set of "
+         "committed items (a) equal the one-thread reference and (b) are "
+         "identical across all explored schedules (differential); plus "
+         "conservation, isolation stamps, local-state round trip, nothing "
+         "left owned; non-trivial = distinct trace hash among executions "
+         "with >= 1 deviation",
+    bound_note="per-cell bound_completed in coverage.cells",
+    assumptions=E1_ASSUME,
+    deadline=dict(quick=200, thorough=3000),
+    technique="stateless model checking of the implementation: exhaustive "
+              "deviation-bounded schedule enumeration (gsched) with a "
+              "differential oracle across schedules and thread counts",
+    level_text="every schedule with <= d deviations (d=1 quick, 1-2 "
+               "thorough) of the real deterministic executor (~10 barrier "
+               "phases per round); the observable result must be the same "
+               "string in all of them and equal to the one-thread run",
+    level_note="bounded: <=3 threads, <=5 items, 3 objects",
+    design_ref="DESIGN.md 2, 7/C07",
+    parts=[dict(engine="e1", harness="c07_deterministic")],
+)
+
 NOT_APPLICABLE = {}
